@@ -1,0 +1,48 @@
+/*
+ *  Verification hooks: re-exports and constructors that let a harness drive the election of this
+ *  crate in-process. Compiled only with the cargo feature `verif`; adds no behaviour of its own
+ *  except that the random part of the election timeout can be pinned.
+ */
+
+pub use crate::config::{Config, Peers};
+pub use crate::election::{ElectionOutcome, elect_leader};
+pub use crate::{HeartbeatRequest, PeerInfo, PeerMessage, Priority};
+use std::net::{IpAddr, SocketAddr};
+use std::sync::Mutex;
+
+static FIXED_JITTER: Mutex<Option<f64>> = Mutex::new(None);
+
+/// Pins the random factor (0.0..=1.0) `Config::election_timeout` adds to the minimum timeout.
+pub fn set_fixed_jitter(jitter: Option<f64>) {
+    if let Ok(mut it) = FIXED_JITTER.lock() {
+        *it = jitter;
+    }
+}
+
+pub fn fixed_jitter() -> Option<f64> {
+    FIXED_JITTER.lock().ok().and_then(|it| *it)
+}
+
+pub fn peer_info(node_id: &str, address: IpAddr, raft_port: u16, sync_port: u16, priority: Option<i64>) -> PeerInfo {
+    PeerInfo {
+        node_id: node_id.to_owned(),
+        address,
+        raft_port,
+        sync_port,
+        priority,
+        suicide_on_split_brain: true,
+    }
+}
+
+pub fn priority(value: i64) -> Priority {
+    Priority(value)
+}
+
+pub fn heartbeat_node(heartbeat: &HeartbeatRequest) -> &str {
+    &heartbeat.node_id
+}
+
+/// The test `follow` makes before it starts a server in follower mode.
+pub fn follow_target(peers: &Peers, heartbeat: &HeartbeatRequest) -> Option<SocketAddr> {
+    peers.sync_addr(&heartbeat.node_id)
+}
